@@ -124,7 +124,7 @@ theorem getRowSimple_js (c : RCfg) (s : RState) (h : RInv c s) (r : Option Str) 
         ∀ agg out err, jsProcessLine c (absJ s agg out err) l = jsDispatch c (absJ s1 agg out err) row := by
   obtain ⟨i, f, o⟩ := getRowSimple_spec c s h
   rw [hg] at i f o
-  simp only [stepObs, specStep] at o
+  simp only [stepObs, specStep] at o i f
   rcases hn : nextLine (pending s) with _ | ⟨l, rest⟩
   · rw [hn] at o
     simp only [Prod.mk.injEq] at o
@@ -133,7 +133,7 @@ theorem getRowSimple_js (c : RCfg) (s : RState) (h : RInv c s) (r : Option Str) 
   · rw [hn] at o
     simp only at o
     obtain ⟨l1, l2, l3⟩ := nextLine_some_lines _ _ _ hn
-    obtain ⟨a1, a2, a3, _, _, _⟩ := f
+    obtain ⟨a1, a2, a3, _, _, _⟩ := id f
     by_cases h0 : s.nl = 0
     · rw [if_pos h0] at o
       simp only [Prod.mk.injEq] at o
@@ -142,8 +142,8 @@ theorem getRowSimple_js (c : RCfg) (s : RState) (h : RInv c s) (r : Option Str) 
       refine ⟨l, by rw [o2]; exact l1, by rw [o2]; exact l2, i, f, NoNL_removeBom _ _ l3, ?_⟩
       intro agg out err
       by_cases hc : removeBom c.enc l = l
-      · simp [jsProcessLine, absJ, h0, hc, a1, a2, a3, o3, o4]
-      · simp [jsProcessLine, absJ, h0, hc, a1, a2, a3, o3, o4]
+      · simp [jsProcessLine, jsDispatch, absJ, h0, hc, a1, a2, a3, o3, o4]
+      · simp [jsProcessLine, jsDispatch, absJ, h0, hc, a1, a2, a3, o3, o4]
     · rw [if_neg h0] at o
       simp only [Prod.mk.injEq] at o
       obtain ⟨rfl, o2, o3, o4⟩ := o
@@ -151,5 +151,688 @@ theorem getRowSimple_js (c : RCfg) (s : RState) (h : RInv c s) (r : Option Str) 
       refine ⟨l, by rw [o2]; exact l1, by rw [o2]; exact l2, i, f, l3, ?_⟩
       intro agg out err
       simp [jsProcessLine, absJ, h0, a1, a2, a3, o3, o4, jsDispatch]
+
+/-! ### JS side: stored error is sticky, the aggregation buffer is not observable -/
+
+theorem jsRecordLine_err (c : RCfg) (st : JState) (line : Str) (e : ReadErr)
+    (h : st.err = some e) : (jsRecordLine c st line).err = some e := by
+  unfold jsRecordLine
+  simp only
+  split <;> (try split) <;> simp_all
+
+theorem jsRecordLine_agg (c : RCfg) (st : JState) (line : Str) :
+    (jsRecordLine c st line).agg = st.agg := by
+  unfold jsRecordLine
+  simp only
+  split <;> (try split) <;> simp_all
+
+theorem clr_jsRecordLine (c : RCfg) (st : JState) (line : Str) :
+    clr (jsRecordLine c st line) = jsRecordLine c (clr st) line := by
+  unfold jsRecordLine clr
+  simp only
+  split <;> (try split) <;> simp_all
+
+theorem jsRfcLine_err (c : RCfg) (st : JState) (line : Str) (e : ReadErr)
+    (h : st.err = some e) : (jsRfcLine c st line).err = some e := by
+  unfold jsRfcLine
+  split
+  · exact h
+  · simp only
+    split
+    · exact jsRecordLine_err _ _ _ _ h
+    · exact h
+
+theorem jsDispatch_err (c : RCfg) (st : JState) (line : Str) (e : ReadErr)
+    (h : st.err = some e) : (jsDispatch c st line).err = some e := by
+  unfold jsDispatch
+  split
+  · exact jsRfcLine_err _ _ _ _ h
+  · split
+    · exact h
+    · exact jsRecordLine_err _ _ _ _ h
+
+theorem jsProcessLine_eq (c : RCfg) (st : JState) (line : Str) :
+    ∃ st' line', jsProcessLine c st line = jsDispatch c st' line' ∧ st'.err = st.err := by
+  by_cases h1 : st.nl = 0
+  · by_cases hc : removeBom c.enc line = line
+    · exact ⟨{ st with nl := st.nl + 1 }, line, by simp [jsProcessLine, jsDispatch, h1, hc], rfl⟩
+    · exact ⟨{ st with nl := st.nl + 1, bom := true }, removeBom c.enc line,
+        by simp [jsProcessLine, jsDispatch, h1, hc], rfl⟩
+  · exact ⟨{ st with nl := st.nl + 1 }, line, by simp [jsProcessLine, jsDispatch, h1], rfl⟩
+
+theorem jsProcessLine_err (c : RCfg) (st : JState) (line : Str) (e : ReadErr)
+    (h : st.err = some e) : (jsProcessLine c st line).err = some e := by
+  obtain ⟨st', line', h1, h2⟩ := jsProcessLine_eq c st line
+  rw [h1]
+  exact jsDispatch_err _ _ _ _ (h2.trans h)
+
+theorem jsFlush_err (c : RCfg) (st : JState) (e : ReadErr) (h : st.err = some e) :
+    (jsFlush c st).err = some e := by
+  unfold jsFlush
+  split
+  · exact jsRecordLine_err _ _ _ _ h
+  · exact h
+
+theorem jsRun_err (c : RCfg) (st : JState) (ls : List Str) (e : ReadErr) (h : st.err = some e) :
+    (jsRun c st ls).err = some e := by
+  induction ls generalizing st with
+  | nil => exact jsFlush_err _ _ _ h
+  | cons l ls ih => exact ih _ (jsProcessLine_err _ _ _ _ h)
+
+theorem jsFlush_nil (c : RCfg) (st : JState) (h : st.agg = []) : jsFlush c st = st := by
+  simp [jsFlush, h]
+
+theorem jsRun_nil_of_agg (c : RCfg) (st : JState) (h : st.agg = []) : jsRun c st [] = st :=
+  jsFlush_nil c st h
+
+/-- the aggregator on a line inside a multi-line record -/
+theorem jsRfcLine_cont (c : RCfg) (st : JState) (line : Str) (h : st.agg ≠ []) :
+    jsRfcLine c st line =
+      if countQuotes line % 2 = 1 then
+        jsRecordLine c { st with agg := [] } (joinLF (line :: st.agg).reverse)
+      else { st with agg := line :: st.agg } := by
+  unfold jsRfcLine
+  have hl : 0 < st.agg.length := List.length_pos_iff.mpr h
+  rw [if_neg (fun hh => h hh.1)]
+  by_cases hq : countQuotes line % 2 = 1
+  · have : (st.agg.length + 1 > 1) := by omega
+    simp [hq, this]
+  · have : ¬ (st.agg.length = 0) := by omega
+    simp [hq, this]
+
+/-- the aggregator on a line that starts a record -/
+theorem jsRfcLine_start (c : RCfg) (st : JState) (line : Str) (h : st.agg = []) :
+    jsRfcLine c st line =
+      if isComment c line then st
+      else if countQuotes line % 2 = 1 then { st with agg := [line] }
+      else jsRecordLine c { st with agg := [] } line := by
+  unfold jsRfcLine
+  by_cases hc : isComment c line = true
+  · simp [h, hc]
+  · by_cases hq : countQuotes line % 2 = 1
+    · simp [h, hc, hq]
+    · simp [h, hc, hq, joinLF]
+
+/-! ### Finishing a record: the tail of `readRecord` against `jsRecordLine` -/
+
+/-- `readRecord` after the data line has been found -/
+def pyFinish (c : RCfg) (s1 : RState) (line : Str) : Except ReadErr (Option (List Str) × RState) :=
+  let s2 := { s1 with nr := s1.nr + 1 }
+  let (record, warning) := smartSplit c.delim c.policy false line
+  let info := addFieldsInfo s2.fieldsInfo record.length s2.nr
+  if warning ∧ s2.firstDefective = none then
+    if c.policy = .quotedRfc then .error (.rfcQuote s2.nr s2.nl)
+    else .ok (some record, { s2 with firstDefective := some s2.nl, fieldsInfo := info })
+  else .ok (some record, { s2 with fieldsInfo := info })
+
+theorem readRecord_eq (c : RCfg) (s : RState) :
+    readRecord c s =
+      match nextDataLine c (remaining s + 1) s with
+      | (none, s1) => .ok (none, s1)
+      | (some line, s1) => pyFinish c s1 line := rfl
+
+theorem pyFinish_js (c : RCfg) (s1 : RState) (line : Str) :
+    match pyFinish c s1 line with
+    | .error e => ∀ agg out, (jsRecordLine c (absJ s1 agg out none) line).err = some e
+    | .ok (r, s2) => ∃ rec, r = some rec ∧ pending s2 = pending s1 ∧ (RInv c s1 → RInv c s2) ∧
+        (s2.emitFirst = s1.emitFirst ∧ s2.hasHeader = s1.hasHeader) ∧
+        ∀ agg out, jsRecordLine c (absJ s1 agg out none) line = absJ s2 agg (rec :: out) none := by
+  unfold pyFinish jsRecordLine
+  rcases smartSplit c.delim c.policy false line with ⟨record, warning⟩
+  simp only
+  by_cases hw : warning = true ∧ s1.firstDefective = none
+  · rw [if_pos hw]
+    by_cases hp : c.policy = .quotedRfc
+    · rw [if_pos hp]
+      intro agg out
+      simp [absJ, hw, hp]
+    · rw [if_neg hp]
+      refine ⟨record, rfl, rfl, fun h => ⟨h.1, h.2, h.3⟩, ⟨rfl, rfl⟩, ?_⟩
+      intro agg out
+      simp [absJ, hw, hp]
+  · rw [if_neg hw]
+    refine ⟨record, rfl, rfl, fun h => ⟨h.1, h.2, h.3⟩, ⟨rfl, rfl⟩, ?_⟩
+    intro agg out
+    have hw' : ¬ (warning = true ∧ (absJ s1 agg out none).firstDefective = none) := hw
+    rw [if_neg hw']
+    simp [absJ]
+
+/-! ### The comment test on a joined multi-line record -/
+
+theorem startsWith_append_LF (p first X : Str) (h : startsWith p (first ++ LF :: X) = true) :
+    startsWith p first = true ∨ ∃ b, p = first ++ LF :: b := by
+  induction first generalizing p with
+  | nil =>
+    cases p with
+    | nil => left; simp [startsWith]
+    | cons c p' =>
+      right
+      simp [startsWith] at h
+      exact ⟨p', by simp [h.1]⟩
+  | cons f fs ih =>
+    cases p with
+    | nil => left; simp [startsWith]
+    | cons c p' =>
+      simp only [startsWith, List.cons_append, List.isPrefixOf_cons_cons, Bool.and_eq_true,
+        beq_iff_eq] at h ⊢
+      obtain ⟨rfl, h2⟩ := h
+      rcases ih p' h2 with h3 | ⟨b, rfl⟩
+      · left; exact ⟨rfl, h3⟩
+      · right; exact ⟨b, rfl⟩
+
+theorem isComment_joined (c : RCfg) (hok : CommentOK c) (hp : c.policy = .quotedRfc)
+    (first X : Str) (hn : NoNL first) (hq : countQuotes first % 2 = 1)
+    (hc : isComment c first = false) : isComment c (first ++ LF :: X) = false := by
+  unfold isComment at hc ⊢
+  rcases hcm : c.comment with _ | p
+  · rfl
+  · rw [hcm] at hc
+    simp only at hc ⊢
+    rcases hs : startsWith p (first ++ LF :: X) with _ | _
+    · rfl
+    · rcases startsWith_append_LF _ _ _ hs with h1 | ⟨b, rfl⟩
+      · rw [h1] at hc; cases hc
+      · have := hok hp _ first b hcm rfl hn
+        omega
+
+theorem joinLF_cons (r : Str) (rs : List Str) :
+    joinLF (r :: rs) = if rs = [] then r else r ++ LF :: joinLF rs := by
+  cases rs <;> simp [joinLF]
+
+/-! ### The multi-line loop -/
+
+theorem clr_absJ (s : RState) (agg : List Str) (out : List (List Str)) (err : Option ReadErr) :
+    clr (absJ s agg out err) = absJ s [] out err := rfl
+
+theorem rfcLoop_js (c : RCfg) (hp : c.policy = .quotedRfc) (fuel : Nat) (s : RState)
+    (rows : List Str) (hrows : rows ≠ []) (hinv : RInv c s) (hfuel : (pending s).length < fuel) :
+    (pending (rfcLoop c fuel s rows).2).length ≤ (pending s).length ∧
+    RInv c (rfcLoop c fuel s rows).2 ∧ Frame s (rfcLoop c fuel s rows).2 ∧
+    (∃ extra, (rfcLoop c fuel s rows).1 = joinLF (rows.reverse ++ extra)) ∧
+    ∀ out err, clr (jsRun c (absJ s rows out err) (linesSpec (pending s))) =
+      clr (jsRun c (jsRecordLine c (absJ (rfcLoop c fuel s rows).2 [] out err)
+        (rfcLoop c fuel s rows).1) (linesSpec (pending (rfcLoop c fuel s rows).2))) := by
+  induction fuel generalizing s rows with
+  | zero => omega
+  | succ fuel ih =>
+    rw [rfcLoop]
+    rcases hg : getRowSimple c s with ⟨_ | row, s1⟩
+    · have hj := getRowSimple_js c s hinv _ _ hg
+      simp only at hj ⊢
+      obtain ⟨p0, p1, i1, f1, n1, b1⟩ := hj
+      refine ⟨by rw [p0, p1]; exact Nat.le_refl _, i1, f1, ⟨[], by simp⟩, ?_⟩
+      intro out err
+      rw [p0, p1, linesSpec_nil, absJ_frame f1 n1 b1]
+      simp only [jsRun]
+      rw [jsFlush_nil _ (jsRecordLine _ _ _) (by rw [jsRecordLine_agg]; rfl)]
+      have : (absJ s rows out err).agg ≠ [] := hrows
+      rw [jsFlush, if_pos this, clr_jsRecordLine, clr_jsRecordLine]
+      rfl
+    · have hj := getRowSimple_js c s hinv _ _ hg
+      simp only at hj ⊢
+      obtain ⟨l, hl, hlen, i1, f1, nn, hj⟩ := hj
+      by_cases hq : countQuotes row % 2 = 1
+      · rw [if_pos hq]
+        simp only
+        refine ⟨Nat.le_of_lt hlen, i1, f1, ⟨[row], by simp⟩, ?_⟩
+        intro out err
+        have hagg : (absJ s1 rows out err).agg ≠ [] := hrows
+        rw [hl]
+        simp only [jsRun]
+        rw [hj, jsDispatch, if_pos hp, jsRfcLine_cont _ _ _ hagg, if_pos hq]
+        rfl
+      · rw [if_neg hq]
+        obtain ⟨q1, q2, q3, ⟨extra, q4⟩, q5⟩ := ih s1 (row :: rows) (by simp) i1 (by omega)
+        refine ⟨by omega, q2, f1.trans q3, ⟨row :: extra, by rw [q4]; simp⟩, ?_⟩
+        intro out err
+        have hagg : (absJ s1 rows out err).agg ≠ [] := hrows
+        rw [hl]
+        simp only [jsRun]
+        rw [hj, jsDispatch, if_pos hp, jsRfcLine_cont _ _ _ hagg, if_neg hq]
+        exact q5 out err
+
+/-! ### One logical row: `getRow` -/
+
+theorem getRow_js (c : RCfg) (hok : CommentOK c) (s : RState) (hinv : RInv c s) (r : Option Str)
+    (s1 : RState) (hg : getRow c s = (r, s1)) :
+    match r with
+    | none => pending s = [] ∧ pending s1 = [] ∧ RInv c s1 ∧ Frame s s1 ∧ s1.nl = s.nl ∧
+        s1.bom = s.bom
+    | some line => (pending s1).length < (pending s).length ∧ RInv c s1 ∧ Frame s s1 ∧
+        ∀ out err, clr (jsRun c (absJ s [] out err) (linesSpec (pending s))) =
+          clr (jsRun c (if isComment c line then absJ s1 [] out err
+            else jsRecordLine c (absJ s1 [] out err) line) (linesSpec (pending s1))) := by
+  rw [getRow] at hg
+  by_cases hp : c.policy = .quotedRfc
+  · rw [if_pos hp, getRowRfc_eq] at hg
+    rcases hg1 : getRowSimple c s with ⟨_ | first, s0⟩
+    · rw [hg1] at hg
+      simp only [Prod.mk.injEq] at hg
+      obtain ⟨rfl, rfl⟩ := hg
+      exact getRowSimple_js c s hinv _ _ hg1
+    · rw [hg1] at hg
+      simp only at hg
+      have hj := getRowSimple_js c s hinv _ _ hg1
+      simp only at hj
+      obtain ⟨l, hl, hlen, i1, f1, nn, hj⟩ := hj
+      have hagg : ∀ out err, (absJ s0 [] out err).agg = [] := fun _ _ => rfl
+      by_cases hc : isComment c first = true
+      · rw [if_pos hc] at hg
+        simp only [Prod.mk.injEq] at hg
+        obtain ⟨rfl, rfl⟩ := hg
+        simp only
+        refine ⟨hlen, i1, f1, ?_⟩
+        intro out err
+        rw [hl]
+        simp only [jsRun]
+        rw [hj, jsDispatch, if_pos hp, jsRfcLine_start _ _ _ (hagg out err), if_pos hc, if_pos hc]
+      · rw [if_neg hc] at hg
+        by_cases hq : countQuotes first % 2 = 0
+        · rw [if_pos hq] at hg
+          simp only [Prod.mk.injEq] at hg
+          obtain ⟨rfl, rfl⟩ := hg
+          simp only
+          refine ⟨hlen, i1, f1, ?_⟩
+          intro out err
+          rw [hl]
+          simp only [jsRun]
+          rw [hj, jsDispatch, if_pos hp, jsRfcLine_start _ _ _ (hagg out err), if_neg hc,
+            if_neg (by omega), if_neg hc]
+          rfl
+        · rw [if_neg hq] at hg
+          obtain ⟨q1, q2, q3, ⟨extra, q4⟩, q5⟩ := rfcLoop_js c hp (remaining s0 + 1) s0 [first]
+            (by simp) i1 (by rw [remaining_eq]; omega)
+          simp only [Prod.mk.injEq] at hg
+          obtain ⟨rfl, rfl⟩ := hg
+          simp only
+          have hodd : countQuotes first % 2 = 1 := by omega
+          have hcf : isComment c first = false := by simpa using hc
+          have hnc : isComment c (rfcLoop c (remaining s0 + 1) s0 [first]).1 = false := by
+            rw [q4]
+            simp only [List.reverse_singleton, List.singleton_append, joinLF_cons]
+            split
+            · exact hcf
+            · exact isComment_joined c hok hp first _ nn hodd hcf
+          refine ⟨by omega, q2, f1.trans q3, ?_⟩
+          intro out err
+          rw [hl]
+          simp only [jsRun]
+          rw [hj, jsDispatch, if_pos hp, jsRfcLine_start _ _ _ (hagg out err), if_neg hc,
+            if_pos hodd, hnc]
+          simp only [Bool.false_eq_true, if_false]
+          exact q5 out err
+  · rw [if_neg hp] at hg
+    have hj := getRowSimple_js c s hinv _ _ hg
+    cases r with
+    | none => exact hj
+    | some line =>
+      simp only at hj ⊢
+      obtain ⟨l, hl, hlen, i1, f1, nn, hj⟩ := hj
+      refine ⟨hlen, i1, f1, ?_⟩
+      intro out err
+      rw [hl]
+      simp only [jsRun]
+      rw [hj, jsDispatch, if_neg hp]
+
+/-! ### Skipping comments: `nextDataLine` -/
+
+theorem nextDataLine_js (c : RCfg) (hok : CommentOK c) (fuel : Nat) (s : RState) (hinv : RInv c s)
+    (hfuel : (pending s).length < fuel) (r : Option Str) (s1 : RState)
+    (hg : nextDataLine c fuel s = (r, s1)) :
+    match r with
+    | none => pending s1 = [] ∧ RInv c s1 ∧ Frame s s1 ∧
+        ∀ out err, clr (jsRun c (absJ s [] out err) (linesSpec (pending s))) = absJ s1 [] out err
+    | some line => (pending s1).length < (pending s).length ∧ RInv c s1 ∧ Frame s s1 ∧
+        ∀ out err, clr (jsRun c (absJ s [] out err) (linesSpec (pending s))) =
+          clr (jsRun c (jsRecordLine c (absJ s1 [] out err) line) (linesSpec (pending s1))) := by
+  induction fuel generalizing s with
+  | zero => omega
+  | succ fuel ih =>
+    rw [nextDataLine] at hg
+    rcases hg1 : getRow c s with ⟨_ | line, s0⟩
+    · rw [hg1] at hg
+      simp only [Prod.mk.injEq] at hg
+      obtain ⟨rfl, rfl⟩ := hg
+      have hj := getRow_js c hok s hinv _ _ hg1
+      simp only at hj ⊢
+      obtain ⟨p0, p1, i1, f1, n1, b1⟩ := hj
+      refine ⟨p1, i1, f1, ?_⟩
+      intro out err
+      rw [p0, linesSpec_nil, absJ_frame f1 n1 b1, jsRun_nil_of_agg _ _ rfl]
+      rfl
+    · rw [hg1] at hg
+      simp only at hg
+      have hj := getRow_js c hok s hinv _ _ hg1
+      simp only at hj
+      obtain ⟨hlen, i1, f1, hj⟩ := hj
+      by_cases hc : isComment c line = true
+      · rw [if_pos hc] at hg
+        have h2 := ih s0 i1 (by omega) hg
+        cases r with
+        | none =>
+          simp only at h2 ⊢
+          obtain ⟨a, b, d, e⟩ := h2
+          refine ⟨a, b, f1.trans d, ?_⟩
+          intro out err
+          rw [hj, if_pos hc]
+          exact e out err
+        | some line' =>
+          simp only at h2 ⊢
+          obtain ⟨a, b, d, e⟩ := h2
+          refine ⟨by omega, b, f1.trans d, ?_⟩
+          intro out err
+          rw [hj, if_pos hc]
+          exact e out err
+      · rw [if_neg hc] at hg
+        simp only [Prod.mk.injEq] at hg
+        obtain ⟨rfl, rfl⟩ := hg
+        simp only
+        refine ⟨hlen, i1, f1, ?_⟩
+        intro out err
+        rw [hj, if_neg hc]
+
+/-! ### One record: `readRecord` -/
+
+theorem clr_err (st : JState) : (clr st).err = st.err := rfl
+
+theorem readRecord_js (c : RCfg) (hok : CommentOK c) (s : RState) (hinv : RInv c s)
+    (res : Except ReadErr (Option (List Str) × RState)) :
+    readRecord c s = res →
+    match res with
+    | .error e => ∀ out, (jsRun c (absJ s [] out none) (linesSpec (pending s))).err = some e
+    | .ok (none, s1) => pending s1 = [] ∧ RInv c s1 ∧
+        (s1.emitFirst = s.emitFirst ∧ s1.hasHeader = s.hasHeader) ∧
+        ∀ out, clr (jsRun c (absJ s [] out none) (linesSpec (pending s))) = absJ s1 [] out none
+    | .ok (some rec, s1) => (pending s1).length < (pending s).length ∧ RInv c s1 ∧
+        (s1.emitFirst = s.emitFirst ∧ s1.hasHeader = s.hasHeader) ∧
+        ∀ out, clr (jsRun c (absJ s [] out none) (linesSpec (pending s))) =
+          clr (jsRun c (absJ s1 [] (rec :: out) none) (linesSpec (pending s1))) := by
+  intro hr
+  rw [readRecord_eq] at hr
+  rcases hg : nextDataLine c (remaining s + 1) s with ⟨_ | line, s0⟩
+  · rw [hg] at hr
+    simp only at hr
+    subst hr
+    have hj := nextDataLine_js c hok _ s hinv (by rw [remaining_eq]; omega) _ _ hg
+    simp only at hj ⊢
+    obtain ⟨a, b, d, e⟩ := hj
+    exact ⟨a, b, ⟨d.2.2.2.2.2, d.2.2.2.1⟩, fun out => e out none⟩
+  · rw [hg] at hr
+    simp only at hr
+    have hj := nextDataLine_js c hok _ s hinv (by rw [remaining_eq]; omega) _ _ hg
+    simp only at hj
+    obtain ⟨hlen, i1, f1, hj⟩ := hj
+    have hf := pyFinish_js c s0 line
+    rw [hr] at hf
+    match res, hf with
+    | .error e, hf =>
+      simp only at hf ⊢
+      intro out
+      have h1 := hf [] out
+      have h2 := jsRun_err c _ (linesSpec (pending s0)) e h1
+      rw [← clr_err, hj out none, clr_err]
+      exact h2
+    | .ok (r, s2), hf =>
+      simp only at hf
+      obtain ⟨rec, rfl, hpend, hinv2, hef, hrl⟩ := hf
+      simp only
+      refine ⟨by rw [hpend]; exact hlen, hinv2 i1, ⟨hef.1.trans f1.2.2.2.2.2, hef.2.trans f1.2.2.2.1⟩, ?_⟩
+      intro out
+      rw [hj, hrl, hpend]
+
+/-! ### All records -/
+
+theorem allRecords_js (c : RCfg) (hok : CommentOK c) (fuel : Nat) (s : RState)
+    (acc : List (List Str)) (hinv : RInv c s) (hef : s.emitFirst = false)
+    (hfuel : (pending s).length < fuel) :
+    match allRecords c fuel s acc with
+    | .error e => ∀ out, (jsRun c (absJ s [] out none) (linesSpec (pending s))).err = some e
+    | .ok (recs, s') => ∃ new, recs = acc.reverse ++ new ∧
+        ∀ out, clr (jsRun c (absJ s [] out none) (linesSpec (pending s))) =
+          absJ s' [] (new.reverse ++ out) none := by
+  induction fuel generalizing s acc with
+  | zero => omega
+  | succ fuel ih =>
+    rw [allRecords, getRecord, hef]
+    simp only [Bool.false_eq_true, if_false]
+    rcases hr : readRecord c s with e | ⟨_ | rec, s1⟩
+    · exact readRecord_js c hok s hinv _ hr
+    · have hj := readRecord_js c hok s hinv _ hr
+      simp only at hj ⊢
+      exact ⟨[], by simp, fun out => by simpa using hj.2.2.2 out⟩
+    · have hj := readRecord_js c hok s hinv _ hr
+      simp only at hj ⊢
+      obtain ⟨hlen, i1, e1, hj⟩ := hj
+      have h2 := ih s1 (rec :: acc) i1 (e1.1.trans hef) (by omega)
+      rcases hall : allRecords c fuel s1 (rec :: acc) with e | ⟨recs, s'⟩
+      · rw [hall] at h2
+        simp only at h2 ⊢
+        intro out
+        rw [← clr_err, hj out, clr_err]
+        exact h2 (rec :: out)
+      · rw [hall] at h2
+        simp only at h2 ⊢
+        obtain ⟨new, h3, h4⟩ := h2
+        refine ⟨rec :: new, by rw [h3]; simp, ?_⟩
+        intro out
+        rw [hj, h4]
+        simp
+
+/-! ### Header, modifier, warnings -/
+
+/-- `jsResult` with the effective header flag -/
+def jsResultH (st : JState) (hdr : Bool) : Except ReadErr ReadResult :=
+  match st.err with
+  | some e => .error e
+  | none =>
+    .ok { header := if hdr then st.out.reverse.head? else none,
+          records := if hdr then st.out.reverse.drop 1 else st.out.reverse,
+          warnings := jsWarnings st }
+
+theorem jsResult_eq (st : JState) (hh : Bool) (m : Option Bool) :
+    jsResult st hh m = jsResultH (clr st) (match m with | some b => b | none => hh) := rfl
+
+theorem canonWarnings_agree (s : RState) (out : List (List Str)) :
+    canonWarnings (jsWarnings (absJ s [] out none)) = canonWarnings (readerWarnings s) := by
+  simp only [jsWarnings, readerWarnings, absJ]
+  generalize s.bom = b
+  generalize s.firstDefective = d
+  generalize s.fieldsInfo = f
+  cases b <;> cases d <;> rcases f with _ | ⟨⟨a1, a2⟩, _ | ⟨⟨a3, a4⟩, _⟩⟩ <;> simp [canonWarnings]
+
+theorem canon_ok (s2 : RState) (out : List (List Str)) (hdr : Bool) (h : Option (List Str))
+    (recs : List (List Str)) (hh : (if hdr then out.reverse.head? else none) = h)
+    (hr : (if hdr then out.reverse.drop 1 else out.reverse) = recs) :
+    canonResult (.ok { header := h, records := recs, warnings := readerWarnings s2 }) =
+      canonResult (jsResultH (absJ s2 [] out none) hdr) := by
+  subst hh hr
+  simp only [canonResult, jsResultH, absJ, Except.map]
+  have := canonWarnings_agree s2 out
+  simp only [absJ] at this
+  rw [this]
+
+theorem canon_err (J : JState) (hdr : Bool) (e : ReadErr) (h : J.err = some e) :
+    jsResultH (clr J) hdr = .error e := by
+  simp [jsResultH, clr, h]
+
+theorem handleModifier_facts (m : Option Bool) (hh : Bool) (s : RState) (hs : s.hasHeader = hh)
+    (fr : Option (List Str)) :
+    (handleModifier m { s with firstRecord := fr, emitFirst := !hh }).hasHeader =
+        (match m with | some b => b | none => hh) ∧
+    (handleModifier m { s with firstRecord := fr, emitFirst := !hh }).emitFirst =
+        !(match m with | some b => b | none => hh) ∧
+    (handleModifier m { s with firstRecord := fr, emitFirst := !hh }).firstRecord = fr ∧
+    pending (handleModifier m { s with firstRecord := fr, emitFirst := !hh }) = pending s ∧
+    (∀ c, RInv c s → RInv c (handleModifier m { s with firstRecord := fr, emitFirst := !hh })) ∧
+    ∀ agg out err, absJ (handleModifier m { s with firstRecord := fr, emitFirst := !hh }) agg out err =
+      absJ s agg out err := by
+  match m with
+  | none => exact ⟨hs, rfl, rfl, rfl, fun c h => ⟨h.1, h.2, h.3⟩, fun _ _ _ => rfl⟩
+  | some true => exact ⟨rfl, rfl, rfl, rfl, fun c h => ⟨h.1, h.2, h.3⟩, fun _ _ _ => rfl⟩
+  | some false => exact ⟨rfl, rfl, rfl, rfl, fun c h => ⟨h.1, h.2, h.3⟩, fun _ _ _ => rfl⟩
+
+/-- the run after the first record has been pre-read -/
+theorem tail_agree (c : RCfg) (hok : CommentOK c) (s : RState) (hinv : RInv c s) (hdr : Bool)
+    (fr : Option (List Str)) (h1 : s.hasHeader = hdr) (h2 : s.emitFirst = !hdr)
+    (h3 : s.firstRecord = fr) (hfr : fr = none → pending s = []) (J : JState)
+    (hJ : clr J = clr (jsRun c (absJ s [] fr.toList none) (linesSpec (pending s)))) :
+    canonResult
+      (match allRecords c (remaining s + 2) s [] with
+       | .error e => .error e
+       | .ok (recs, s2) =>
+         .ok { header := getHeader s, records := recs, warnings := readerWarnings s2 }) =
+      canonResult (jsResultH (clr J) hdr) := by
+  cases hdr with
+  | true =>
+    simp only [Bool.not_true] at h2
+    have hj := allRecords_js c hok (remaining s + 2) s [] hinv h2 (by rw [remaining_eq]; omega)
+    rcases hall : allRecords c (remaining s + 2) s [] with e | ⟨recs, s2⟩
+    · rw [hall] at hj
+      simp only at hj ⊢
+      have : J.err = some e := by
+        rw [← clr_err, hJ, clr_err]
+        exact hj _
+      rw [canon_err J _ e this]
+    · rw [hall] at hj
+      simp only at hj ⊢
+      obtain ⟨new, hnew, h4⟩ := hj
+      simp only [List.reverse_nil, List.nil_append] at hnew
+      subst hnew
+      rw [hJ, h4]
+      apply canon_ok
+      · simp only [getHeader, h1, if_true, h3]
+        cases fr with
+        | none =>
+          have hp := hfr rfl
+          have h5 := h4 []
+          rw [hp, linesSpec_nil, jsRun_nil_of_agg _ _ rfl] at h5
+          simp only [clr, absJ, JState.mk.injEq, List.append_nil] at h5
+          have : recs = [] := by
+            have := h5.2.2.2.2.2.2.1
+            simpa using this.symm
+          subst this
+          rfl
+        | some r => simp
+      · cases fr with
+        | none =>
+          have hp := hfr rfl
+          have h5 := h4 []
+          rw [hp, linesSpec_nil, jsRun_nil_of_agg _ _ rfl] at h5
+          simp only [clr, absJ, JState.mk.injEq, List.append_nil] at h5
+          have : recs = [] := by
+            have := h5.2.2.2.2.2.2.1
+            simpa using this.symm
+          subst this
+          rfl
+        | some r => simp
+  | false =>
+    simp only [Bool.not_false] at h2
+    rw [allRecords, getRecord, h2, h3]
+    simp only [if_true]
+    cases fr with
+    | none =>
+      simp only
+      have hp := hfr rfl
+      rw [hp, linesSpec_nil, jsRun_nil_of_agg _ _ rfl] at hJ
+      rw [hJ]
+      apply canon_ok (s2 := { s with emitFirst := false })
+      · simp [getHeader, h1]
+      · simp
+    | some r =>
+      simp only
+      have hj := allRecords_js c hok (remaining s + 1) { s with emitFirst := false } [r]
+        ⟨hinv.1, hinv.2, hinv.3⟩ rfl (by rw [remaining_eq]; exact Nat.lt_succ_self _)
+      rcases hall : allRecords c (remaining s + 1) { s with emitFirst := false } [r] with
+        e | ⟨recs, s2⟩
+      · rw [hall] at hj
+        simp only at hj ⊢
+        have : J.err = some e := by
+          rw [← clr_err, hJ, clr_err]
+          exact hj _
+        rw [canon_err J _ e this]
+      · rw [hall] at hj
+        simp only at hj ⊢
+        obtain ⟨new, hnew, h4⟩ := hj
+        subst hnew
+        rw [hJ]
+        have h5 := h4 [r]
+        change clr (jsRun c (absJ s [] [r] none) (linesSpec (pending s))) = _ at h5
+        simp only [Option.toList]
+        rw [h5]
+        apply canon_ok
+        · simp [getHeader, h1]
+        · simp
+
+/-! ### The theorems -/
+
+/-- Python reader and JS reader deliver the same header, records, warnings (up to order) or the
+same error from the same text, provided the comment prefix is acceptable (`CommentOK`, which only
+constrains the `quotedRfc` policy; see the counterexample in the file header). -/
+theorem readers_agree (c : RCfg) (hc : 1 ≤ c.chunk) (hok : CommentOK c) (hasHeader : Bool)
+    (modifier : Option Bool) (text : Str) :
+    canonResult (readAll c hasHeader modifier (if text = [] then [] else [text])) =
+      canonResult (jsResult (jsBulk c text) hasHeader modifier) := by
+  generalize hst : (if text = [] then [] else [text] : Stream) = st
+  have hflat : st.flatten = text := by
+    subst hst; split <;> simp_all
+  have hne : ∀ p ∈ st, p ≠ [] := by
+    subst hst; split <;> simp_all
+  let s0 : RState := { stream := st, hasHeader := hasHeader }
+  have hinv0 : RInv c s0 := ⟨hc, hne, by simp [s0]⟩
+  have hp0 : pending s0 = text := by simp [pending, s0, hflat]
+  have hjs : jsBulk c text = jsRun c (absJ s0 [] [] none) (linesSpec (pending s0)) := by
+    rw [hp0, jsRun_eq, jsBulk, jsBulkLines_eq_linesSpec]
+    rfl
+  rw [jsResult_eq, hjs]
+  have hj := readRecord_js c hok s0 hinv0 _ rfl
+  rcases hr : readRecord c s0 with e | ⟨fr, s1⟩
+  · rw [hr] at hj
+    simp only at hj
+    have hpy : readAll c hasHeader modifier st = .error e := by
+      simp [readAll, initReader, getRecord, s0, hr, bind, Except.bind] 
+    rw [hpy, canon_err _ _ e (hj _)]
+  · rw [hr] at hj
+    obtain ⟨f1, f2, f3, f4, f5, f6⟩ := handleModifier_facts modifier hasHeader s1
+      (by cases fr <;> exact hj.2.2.1.2) fr
+    have hpy : readAll c hasHeader modifier st =
+        (match allRecords c (remaining (handleModifier modifier
+            { s1 with firstRecord := fr, emitFirst := !hasHeader }) + 2)
+            (handleModifier modifier { s1 with firstRecord := fr, emitFirst := !hasHeader }) [] with
+         | .error e => .error e
+         | .ok (recs, s2) =>
+           .ok { header := getHeader (handleModifier modifier
+                    { s1 with firstRecord := fr, emitFirst := !hasHeader }),
+                 records := recs, warnings := readerWarnings s2 }) := by
+      simp only [readAll, initReader, getRecord, s0, hr, bind, Except.bind, pure, Except.pure,
+        Bool.false_eq_true, if_false]
+      split <;> simp_all
+    rw [hpy]
+    apply tail_agree c hok _ (f5 c (by cases fr <;> exact hj.2.1)) _ fr f1 f2 f3
+    · intro hnone
+      subst hnone
+      rw [f4]
+      exact hj.1
+    · rw [f4, f6]
+      cases fr with
+      | none =>
+        simp only at hj
+        rw [hj.2.2.2, hj.1, linesSpec_nil, jsRun_nil_of_agg _ _ rfl]
+        rfl
+      | some r =>
+        simp only at hj
+        rw [hj.2.2.2]
+        rfl
+
+/-- No side condition is needed for the policies without multi-line records. -/
+theorem readers_agree_simple (c : RCfg) (hc : 1 ≤ c.chunk) (hp : c.policy ≠ .quotedRfc)
+    (hasHeader : Bool) (modifier : Option Bool) (text : Str) :
+    canonResult (readAll c hasHeader modifier (if text = [] then [] else [text])) =
+      canonResult (jsResult (jsBulk c text) hasHeader modifier) :=
+  readers_agree c hc (fun h => absurd h hp) hasHeader modifier text
+
+/-- A comment prefix without LF is acceptable. -/
+theorem CommentOK_of_noLF (c : RCfg) (h : ∀ p, c.comment = some p → LF ∉ p) : CommentOK c := by
+  intro _ p a b hcm hpab _
+  exact absurd (by rw [hpab]; simp) (h p hcm)
 
 end Rbql
